@@ -31,6 +31,8 @@ var gvcAPIScenarios = []gvcAPIScenario{
 	{"rename", "@@\n@@\n-foo(...)\n+bar(...)\n", "package a\n\nfunc g() { foo(1, 2) }\n", true},
 	{"failing-replace-plus-match", "@@\nvar x expression\n@@\n-foo()\n+bar(x)\n\n@@\n@@\n-baz()\n+qux()\n", "package a\n\nfunc g() { foo(); baz() }\n", true},
 	{"plus-line-before-minus-line-single-elision", "@@\n@@\n+bar(...)\n-foo(...)\n", "package a\n\nfunc g() { foo(1, 2) }\n", true},
+	{"elision-needs-backtracking", "@@\n@@\n-foo(..., 1)\n+bar(..., 1)\n", "package a\n\nfunc g() { foo(1, 2, 1) }\n", true},
+	{"same-path-imported-twice", "@@\n@@\n import \"x/y\"\n\n-y.Foo()\n+y.Bar()\n", "package a\n\nimport (\n\ta \"x/y\"\n\t\"x/y\"\n)\n\nfunc g() { y.Foo(); a.Foo() }\n", true},
 	{"elision-both-sides", "@@\n@@\n func f() {\n   ...\n-  foo()\n+  bar()\n+  baz()\n   ...\n }\n", "package a\n\nfunc f() {\n\ta()\n\tfoo()\n\tb()\n\tc()\n}\n", true},
 }
 
@@ -93,6 +95,15 @@ func TestGvcReplay(t *testing.T) {
 			if sc.name == "plus-line-before-minus-line-single-elision" && r.err == nil && !bytes.Contains(r.out, []byte("bar(1, 2)")) {
 				report(sc, fmt.Sprintf("the only elision on each side did not reproduce the elided arguments: Apply returned %q without error", r.out))
 			}
+		case "C04x":
+		}
+		if in.Property == "C04" && sc.name == "elision-needs-backtracking" && r.err == nil && !bytes.Contains(r.out, []byte("bar(1, 2, 1)")) {
+			report(sc, fmt.Sprintf("some choice of runs makes the pattern match (`...` = `1, 2`) but the call was not rewritten: Apply returned %q", r.out))
+		}
+		if in.Property == "C10" && sc.name == "same-path-imported-twice" && r.err == nil && !bytes.Contains(r.out, []byte("y.Bar()")) {
+			report(sc, fmt.Sprintf("the file imports the path in the stated (unnamed) form but the change was not applied: Apply returned %q", r.out))
+		}
+		switch in.Property {
 		case "C09", "C16":
 			if sc.name == "failing-replace-plus-match" && (r.err == nil || r.out != nil) {
 				report(sc, fmt.Sprintf("a change failed to apply but Apply returned (%q, %v)", r.out, r.err))
